@@ -326,13 +326,17 @@ func (l *Log) RemoveGTE(i uint64) error {
 
 // Reset clears all entries and resets to given lastIndex
 func (l *Log) Reset(lastIndex uint64) error {
-	// remove all segments
-	for l.first != nil {
-		if err := l.first.closeAndRemove(); err != nil {
+	// remove all segments, newest first: if we crash half way, what is left
+	// is a prefix of the old log, which the owner can recognise as such.
+	// removing the oldest first would leave a suffix, and a suffix that
+	// happens to start right after lastIndex looks like a valid log
+	for l.last != nil {
+		if err := l.last.closeAndRemove(); err != nil {
 			return err
 		}
-		l.first = l.first.next
+		l.last = l.last.prev
 	}
+	l.first = nil
 
 	s, err := openSegment(l.dir, lastIndex, l.opt)
 	if err != nil {
